@@ -110,9 +110,24 @@ def gen(tier: str, seed: int):
     for i in range(n_random):
         pkg = pg.random_pkg(rng, cfg)
         packs.append((f"random{i}", pg.render(pkg), ["-nc"] if i % 2 else []))
+    # source directory that is not a package itself: packages at different depths in sibling sub-trees, reached through
+    # plain directories (which package is "nearest" must not depend on the enumeration order)
+    layout = {
+        "src/proj/alpha/libs/core/__init__.py": "from .engine import Engine\n",
+        "src/proj/alpha/libs/core/engine.py": "class Engine:\n    def start(self, key: int) -> bool: ...\n",
+        "src/proj/beta/pkg/__init__.py": "from .shapes import area\n",
+        "src/proj/beta/pkg/shapes.py": "def area(w: float, h: float) -> float: ...\n\n\nclass Shape:\n    sides: int = 0\n",
+        "src/proj/gamma/deeper/still/pkg2/__init__.py": "",
+        "src/proj/gamma/deeper/still/pkg2/mod.py": "def far() -> None: ...\n",
+        "src/proj/zeta/pkg3/__init__.py": "",
+        "src/proj/zeta/pkg3/mod3.py": "def near() -> None: ...\n",
+    }
+    packs.append(("nonpackage-src", layout, []))
     extra = 0 if tier == "quick" else 24
     for name, files, opts in packs:
         ref = Case(cid=f"c08-{name}-ref", files=files, opts=opts, hashseed="0", meta={"group": name}, reach=REACH)
+        if name == "nonpackage-src":
+            ref.src = "src/proj"
         perts = []
         plist = list(PERTURBATIONS)
         for j in range(extra):
@@ -122,6 +137,7 @@ def gen(tier: str, seed: int):
             plist = [p for k, p in enumerate(plist) if k % 2 == (len(groups) % 2)]
         for k, (pname, kw) in enumerate(plist):
             c = Case(cid=f"c08-{name}-p{k}", files=files, opts=opts, meta={"group": name, "pert": pname}, reach=REACH)
+            c.src = ref.src
             c.hashseed = kw.get("hashseed", "0")
             c.perturb = kw.get("perturb", {})
             c.cwd = kw.get("cwd", "cw")
@@ -152,6 +168,7 @@ def main(tier: str, seed: int) -> int:
     for name, ref, perts in groups:
         # reference, then a repetition in the same process into a fresh workspace (populated mypy cache, process history)
         rep = Case(cid=ref.cid + "-repeat", files=ref.files, opts=ref.opts, hashseed="0", meta={"group": name, "pert": "repetition+populated-cache"}, reach=REACH)
+        rep.src = ref.src
         batches.append([ref, rep])
         index.append((name, "ref"))
         for pname, c in perts:
